@@ -1,3 +1,154 @@
+import Driver.Util
 import Driver.Loop
-/- placeholder: the C17 view has no executable model yet -/
-def main : IO Unit := Drv.runLoop fun _ => .atom "bad-op"
+import PMV.Model.Shrink
+/- line-protocol handler for the C17 view (shrink / unshrink), run on IEEE doubles -/
+namespace Drv.C17
+open PMV PMV.Shrink Drv
+
+instance : Num Float where
+  default := 0.0
+  add := (· + ·)
+  sub := (· - ·)
+  mul := (· * ·)
+  div := (· / ·)
+  neg := fun x => -x
+  abs := Float.abs
+  sign := fun x => if x > 0.0 then 1.0 else if x < 0.0 then -1.0 else 0.0
+  sqrt := Float.sqrt
+  isZero := fun x => x == 0.0
+  isNeg := fun x => x < 0.0
+  lt := fun x y => x < y
+  le := fun x y => x ≤ y
+  eq := fun x y => x == y
+  one := 1.0
+  zero := 0.0
+  half := 0.5
+
+def dflt : Dflt Float := ⟨1.0, 0.0⟩
+
+def floatOfSx (x : Sx) : Option Float := x.toNat?.map fun n => Float.ofBits n.toUInt64
+def floats? (x : Sx) : Option (Array Float) := do
+  let l ← x.toList?
+  let fs ← l.mapM floatOfSx
+  some fs.toArray
+
+/-- `(shape (value bits…) mask)` -/
+def parseObj : Sx → Option (Obj Float)
+  | .list [sh, vs, m] => do
+    let shape ← sh.nats?
+    let vals ← floats? vs
+    let mask ← parseMask m
+    let (rep, bits) : Rep × Array Bool := match mask with
+      | .scalar true => (.allT, #[])
+      | .scalar false => (.allF, #[])
+      | .array b => (.arr, b)
+    some ⟨shape, fun i => vals[ravel shape i]!, rep, fun i => bits[ravel shape i]!⟩
+  | _ => none
+
+/-- `(shape vals mask ((key shape vals mask) …))` -/
+def parseQ : Sx → Option (Q Float)
+  | .list [sh, vs, m, .list ds] => do
+    let o ← parseObj (.list [sh, vs, m])
+    let derivs ← ds.mapM fun d =>
+      match d with
+      | .list [.atom k, dsh, dvs, dm] => (parseObj (.list [dsh, dvs, dm])).map fun o' =>
+          (k, (⟨o', false, .none⟩ : DObj Float))
+      | _ => none
+    some ⟨.scalar, o, derivs, false, .none⟩
+  | _ => none
+
+def parseAM : Sx → Option AM
+  | .atom "T" => some (.all true)
+  | .atom "F" => some (.all false)
+  | .list [sh, bits] => do
+    let shape ← sh.nats?
+    let b ← bits.bools?
+    let arr := b.toArray
+    some (.arr ⟨shape, fun i => arr[ravel shape i]!⟩)
+  | _ => none
+
+def parseCfg : Sx → Option Cfg
+  | .list [a, b, c] => do
+    some ⟨← a.toBool?, ← b.toBool?, ← c.toBool?⟩
+  | _ => none
+
+def op1? : String → Option (Op1 Float)
+  | "neg" => some Cat.neg | "abs" => some Cat.abs | "recip" => some Cat.recip
+  | "sqrt" => some Cat.sqrt | "wod" => some Cat.wod | _ => none
+
+def op2? : String → Option (Op2 Float)
+  | "add" => some Cat.add | "sub" => some Cat.sub | "mul" => some Cat.mul | "div" => some Cat.div
+  | "lt" => some (Cat.cmp Num.lt) | "le" => some (Cat.cmp Num.le)
+  | "gt" => some (Cat.cmp fun a b => Num.lt b a) | "ge" => some (Cat.cmp fun a b => Num.le b a)
+  | "eq" => some Cat.eq | "ne" => some Cat.ne | _ => none
+
+partial def parseExpr : Sx → Option (Expr Float)
+  | .list [.atom "var", n] => n.toNat?.map .var
+  | .list [.atom op, e] => do some (.un (← op1? op) (← parseExpr e))
+  | .list [.atom op, e₁, e₂] => do some (.bin (← op2? op) (← parseExpr e₁) (← parseExpr e₂))
+  | _ => none
+
+def bitsSx (x : Float) : Sx := Sx.ofNat (x + 0.0).toBits.toNat
+
+def insertSorted (k : String) : List String → List String
+  | [] => [k]
+  | h :: t => if k < h then k :: h :: t else h :: insertSorted k t
+def sortKeys (ks : List String) : List String := ks.foldr insertSorted []
+
+def selected (am : AM) (grid : Shape) : List Index :=
+  match am with
+  | .all true => indices grid
+  | .all false => []
+  | .arr a => (indices grid).filter fun j => a.get (bidx a.shape j)
+
+/-- class, shape, sorted keys, and the elements at the selected grid positions -/
+def obsSx (q : Q Float) (am : AM) (grid : Shape) : Sx :=
+  let ks := sortKeys q.keys
+  let cell (j : Index) : Sx :=
+    let c := q.cellB j
+    if c.m then .atom "M"
+    else .list (bitsSx c.v :: ks.map fun k =>
+      Sx.list [.atom k, if (c.d k).m then Sx.atom "M" else bitsSx (c.d k).v])
+  .list [.atom (match q.cls with | .scalar => "Scalar" | .boolean => "Boolean"),
+         Sx.ofNats q.obj.shape, .list ((selected am grid).map cell)]
+
+def shrinkAll (cfg : Cfg) (am : AM) : List (Q Float) → Option (List (Q Float))
+  | [] => some []
+  | x :: xs => match shrink dflt cfg am x, shrinkAll cfg am xs with
+    | some y, some ys => some (y :: ys)
+    | _, _ => none
+
+def handle : List Sx → Sx
+  | [.atom "run", cfg, am, grid, tree, .list opds] =>
+    match parseCfg cfg, parseAM am, grid.nats?, parseExpr tree, opds.mapM parseQ with
+    | some cfg, some am, some grid, some e, some env =>
+      let direct := match eval env e with
+        | some r => obsSx r am grid
+        | none => .atom "ValueError"
+      let via := match shrinkAll cfg am env with
+        | none => Sx.atom "ValueError"
+        | some senv =>
+          match eval senv e with
+          | none => .atom "ValueError"
+          | some r =>
+            match unshrink dflt cfg am [] r with
+            | some u => obsSx u am grid
+            | none => .atom "ValueError"
+      .list [via, direct]
+    | _, _, _, _, _ => err "operand"
+  | [.atom "shrink", cfg, am, opd] =>
+    -- the shrunk object itself: class, shape, keys, all its elements
+    match parseCfg cfg, parseAM am, parseQ opd with
+    | some cfg, some am, some x =>
+      match shrink dflt cfg am x with
+      | some y => obsSx y (.all true) y.obj.shape
+      | none => .atom "ValueError"
+    | _, _, _ => err "operand"
+  | _ => err "c17-op"
+
+end Drv.C17
+
+def main : IO Unit := Drv.runLoop fun x =>
+  match x with
+  | .list (.atom "c17" :: rest) => Drv.C17.handle rest
+  | _ => .atom "bad-op"
